@@ -46,6 +46,14 @@ pub fn library_entries() -> Vec<TypeEntry> {
         entry!(Vec<(u16, u32)>),
         entry!(Vec<(u32, u32, u32)>),
         entry!(Vec<[u8; 3]>),
+        // 3-tuples rustc lays out in a different order than declared (small, big, small)
+        entry!(Vec<(u8, u16, u8)>),
+        entry!(Vec<(u16, u32, u16)>),
+        entry!(Vec<(f32, f64, f32)>),
+        entry!(Vec<(u8, u32, [u8; 3])>),
+        entry!(Vec<(u32, u8, u8)>),
+        entry!(Box<[(u8, u8, u16)]>),
+        entry!(Vec<(u64, u32)>),
         entry!(Vec<Option<u32>>),
         entry!(Vec<Vec<u8>>),
         entry!(Vec<Arc<str>>),
@@ -87,6 +95,17 @@ pub fn library_entries() -> Vec<TypeEntry> {
         entry!([u8; 1]),
         entry!([u8; 7]),
         entry!([u32; 4]),
+        // same length, different element type (near misses for the schema gate)
+        entry!([u8; 4]),
+        entry!([u16; 4]),
+        entry!([i32; 4]),
+        entry!([f32; 4]),
+        entry!([u64; 4]),
+        entry!([[u16; 2]; 2]),
+        entry!(Vec<Option<[u16; 3]>>),
+        entry!(Vec<Option<[u64; 3]>>),
+        entry!((u8, u16, u8)),
+        entry!((u16, u32, u16)),
         entry!([String; 2]),
         entry!([bool; 3]),
         entry!([(u8, u8); 2]),
